@@ -295,7 +295,7 @@ def compare(ck, hists, tag):
         if a != b and owner[i] not in bad_hist:
             bad_hist[owner[i]] = (all_lines[i], a, b)
     for hi, (line, a, b) in bad_hist.items():
-        h = shrink(ck, hists[hi])
+        h = shrink(ck, hists[hi]) if len(ck.disagreements) < 2 else hists[hi]
         ck.disagree("model-vs-impl", f"after {line!r}: implementation {a!r}, model {b!r}",
                     {"history": [list(o) for o in h]})
     return len(bad_hist)
